@@ -218,17 +218,86 @@ theorem iteratedDeriv_eval (n m : ℕ) (hm : m ≤ n) (T : ℝ) (hT : T ≠ 0) (
     funext s
     exact (evalDeriv_hasDerivAt n m (by omega) T hT P s).deriv
 
-/-! ## the generic model at the shipped degrees is the translated program -/
+/-! ## the generic model IS the translated program, at every translated degree and derivative order
+     (so the every-degree theorems above apply to `Gen.bezier.evalN`, the programs regenerated from the source) -/
 
+/-- control points of a translated program (1 × N matrix) as the model's column function -/
+def pts {N : ℕ} (P : Fin 1 → Fin N → ℝ) : ℕ → ℝ := fun k => if h : k < N then P 0 ⟨k, h⟩ else 0
+
+macro "gen_link" : tactic =>
+  `(tactic| (simp [cas_defs, cas_real, evalDeriv, eval, BezierModel.deriv, derivRaw, diffStep, npow, dcStep, iter, pts]
+             try ring))
+
+theorem gen_eval1 (P : Fin 1 → Fin 2 → ℝ) (T t : ℝ) :
+    Gen.bezier.eval1.p P T t = eval 1 T (pts P) t := by gen_link
+theorem gen_eval1_deriv1 (P : Fin 1 → Fin 2 → ℝ) (T t : ℝ) :
+    Gen.bezier.eval1.d P T t = evalDeriv 1 1 T (pts P) t := by gen_link
+theorem gen_eval2 (P : Fin 1 → Fin 3 → ℝ) (T t : ℝ) :
+    Gen.bezier.eval2.p P T t = eval 2 T (pts P) t := by gen_link
+theorem gen_eval2_deriv1 (P : Fin 1 → Fin 3 → ℝ) (T t : ℝ) :
+    Gen.bezier.eval2.d_0 P T t = evalDeriv 2 1 T (pts P) t := by gen_link
+theorem gen_eval2_deriv2 (P : Fin 1 → Fin 3 → ℝ) (T t : ℝ) :
+    Gen.bezier.eval2.d_1 P T t = evalDeriv 2 2 T (pts P) t := by gen_link
 theorem gen_eval3 (P : Fin 1 → Fin 4 → ℝ) (T t : ℝ) :
-    Gen.bezier.eval3.p P T t = eval 3 T (fun k => if h : k < 4 then P 0 ⟨k, h⟩ else 0) t := by
-  simp [cas_defs, cas_real, eval, dcStep, iter]
-  try ring
-
+    Gen.bezier.eval3.p P T t = eval 3 T (pts P) t := by gen_link
+theorem gen_eval3_deriv1 (P : Fin 1 → Fin 4 → ℝ) (T t : ℝ) :
+    Gen.bezier.eval3.d_0 P T t = evalDeriv 3 1 T (pts P) t := by gen_link
+theorem gen_eval3_deriv2 (P : Fin 1 → Fin 4 → ℝ) (T t : ℝ) :
+    Gen.bezier.eval3.d_1 P T t = evalDeriv 3 2 T (pts P) t := by gen_link
+theorem gen_eval3_deriv3 (P : Fin 1 → Fin 4 → ℝ) (T t : ℝ) :
+    Gen.bezier.eval3.d_2 P T t = evalDeriv 3 3 T (pts P) t := by gen_link
+theorem gen_eval4 (P : Fin 1 → Fin 5 → ℝ) (T t : ℝ) :
+    Gen.bezier.eval4.p P T t = eval 4 T (pts P) t := by gen_link
+theorem gen_eval4_deriv1 (P : Fin 1 → Fin 5 → ℝ) (T t : ℝ) :
+    Gen.bezier.eval4.d_0 P T t = evalDeriv 4 1 T (pts P) t := by gen_link
+theorem gen_eval4_deriv2 (P : Fin 1 → Fin 5 → ℝ) (T t : ℝ) :
+    Gen.bezier.eval4.d_1 P T t = evalDeriv 4 2 T (pts P) t := by gen_link
+theorem gen_eval4_deriv3 (P : Fin 1 → Fin 5 → ℝ) (T t : ℝ) :
+    Gen.bezier.eval4.d_2 P T t = evalDeriv 4 3 T (pts P) t := by gen_link
+theorem gen_eval4_deriv4 (P : Fin 1 → Fin 5 → ℝ) (T t : ℝ) :
+    Gen.bezier.eval4.d_3 P T t = evalDeriv 4 4 T (pts P) t := by gen_link
+theorem gen_eval5 (P : Fin 1 → Fin 6 → ℝ) (T t : ℝ) :
+    Gen.bezier.eval5.p P T t = eval 5 T (pts P) t := by gen_link
+theorem gen_eval5_deriv1 (P : Fin 1 → Fin 6 → ℝ) (T t : ℝ) :
+    Gen.bezier.eval5.d_0 P T t = evalDeriv 5 1 T (pts P) t := by gen_link
+theorem gen_eval5_deriv2 (P : Fin 1 → Fin 6 → ℝ) (T t : ℝ) :
+    Gen.bezier.eval5.d_1 P T t = evalDeriv 5 2 T (pts P) t := by gen_link
+theorem gen_eval5_deriv3 (P : Fin 1 → Fin 6 → ℝ) (T t : ℝ) :
+    Gen.bezier.eval5.d_2 P T t = evalDeriv 5 3 T (pts P) t := by gen_link
+theorem gen_eval5_deriv4 (P : Fin 1 → Fin 6 → ℝ) (T t : ℝ) :
+    Gen.bezier.eval5.d_3 P T t = evalDeriv 5 4 T (pts P) t := by gen_link
+theorem gen_eval5_deriv5 (P : Fin 1 → Fin 6 → ℝ) (T t : ℝ) :
+    Gen.bezier.eval5.d_4 P T t = evalDeriv 5 5 T (pts P) t := by gen_link
+theorem gen_eval6 (P : Fin 1 → Fin 7 → ℝ) (T t : ℝ) :
+    Gen.bezier.eval6.p P T t = eval 6 T (pts P) t := by gen_link
+theorem gen_eval6_deriv1 (P : Fin 1 → Fin 7 → ℝ) (T t : ℝ) :
+    Gen.bezier.eval6.d_0 P T t = evalDeriv 6 1 T (pts P) t := by gen_link
+theorem gen_eval6_deriv2 (P : Fin 1 → Fin 7 → ℝ) (T t : ℝ) :
+    Gen.bezier.eval6.d_1 P T t = evalDeriv 6 2 T (pts P) t := by gen_link
+theorem gen_eval6_deriv3 (P : Fin 1 → Fin 7 → ℝ) (T t : ℝ) :
+    Gen.bezier.eval6.d_2 P T t = evalDeriv 6 3 T (pts P) t := by gen_link
+theorem gen_eval6_deriv4 (P : Fin 1 → Fin 7 → ℝ) (T t : ℝ) :
+    Gen.bezier.eval6.d_3 P T t = evalDeriv 6 4 T (pts P) t := by gen_link
+theorem gen_eval6_deriv5 (P : Fin 1 → Fin 7 → ℝ) (T t : ℝ) :
+    Gen.bezier.eval6.d_4 P T t = evalDeriv 6 5 T (pts P) t := by gen_link
+theorem gen_eval6_deriv6 (P : Fin 1 → Fin 7 → ℝ) (T t : ℝ) :
+    Gen.bezier.eval6.d_5 P T t = evalDeriv 6 6 T (pts P) t := by gen_link
 theorem gen_eval7 (P : Fin 1 → Fin 8 → ℝ) (T t : ℝ) :
-    Gen.bezier.eval7.p P T t = eval 7 T (fun k => if h : k < 8 then P 0 ⟨k, h⟩ else 0) t := by
-  simp [cas_defs, cas_real, eval, dcStep, iter]
-  try ring
+    Gen.bezier.eval7.p P T t = eval 7 T (pts P) t := by gen_link
+theorem gen_eval7_deriv1 (P : Fin 1 → Fin 8 → ℝ) (T t : ℝ) :
+    Gen.bezier.eval7.d_0 P T t = evalDeriv 7 1 T (pts P) t := by gen_link
+theorem gen_eval7_deriv2 (P : Fin 1 → Fin 8 → ℝ) (T t : ℝ) :
+    Gen.bezier.eval7.d_1 P T t = evalDeriv 7 2 T (pts P) t := by gen_link
+theorem gen_eval7_deriv3 (P : Fin 1 → Fin 8 → ℝ) (T t : ℝ) :
+    Gen.bezier.eval7.d_2 P T t = evalDeriv 7 3 T (pts P) t := by gen_link
+theorem gen_eval7_deriv4 (P : Fin 1 → Fin 8 → ℝ) (T t : ℝ) :
+    Gen.bezier.eval7.d_3 P T t = evalDeriv 7 4 T (pts P) t := by gen_link
+theorem gen_eval7_deriv5 (P : Fin 1 → Fin 8 → ℝ) (T t : ℝ) :
+    Gen.bezier.eval7.d_4 P T t = evalDeriv 7 5 T (pts P) t := by gen_link
+theorem gen_eval7_deriv6 (P : Fin 1 → Fin 8 → ℝ) (T t : ℝ) :
+    Gen.bezier.eval7.d_5 P T t = evalDeriv 7 6 T (pts P) t := by gen_link
+theorem gen_eval7_deriv7 (P : Fin 1 → Fin 8 → ℝ) (T t : ℝ) :
+    Gen.bezier.eval7.d_6 P T t = evalDeriv 7 7 T (pts P) t := by gen_link
 
 /-! ## non-vacuity -/
 example : eval 2 (2:ℝ) (fun k => (k:ℝ)) 1 = 1 := by
